@@ -21,6 +21,8 @@ type val struct{ id int }
 
 // rcall is one call of the resolver.
 type rcall struct {
+	// zero: the call returned the zero value (nil pointer) with a nil error and a release function
+	zero     bool
 	n        int
 	ctx      context.Context
 	released func()
@@ -113,7 +115,9 @@ type world struct {
 	// refsUncertain: the number of references the library holds can no longer be derived from the
 	// harness bookkeeping (see liveHolders); reference-count based oracles are skipped for this run
 	refsUncertain bool
-	byErr         map[error]*rcall
+	// zeroOK: in this run the resolver may return the zero value as a result
+	zeroOK bool
+	byErr  map[error]*rcall
 }
 
 // rcOfVal identifies the resolver call a value belongs to. A resolver may
@@ -123,6 +127,9 @@ type world struct {
 func (w *world) rcOfVal(v *val) *rcall {
 	var last *rcall
 	for _, rc := range w.calls {
+		if v == nil && !rc.zero {
+			continue
+		}
 		if rc.v == v && rc.returned != 0 {
 			if rc.rel == 0 {
 				return rc
@@ -143,7 +150,7 @@ func (w *world) rcOfTold(resolved bool, v *val, err error) *rcall {
 	if err != nil {
 		return w.byErr[err]
 	}
-	return nil
+	return w.rcOfVal(nil) // a zero-value result
 }
 
 func (w *world) invalidated(rc *rcall, before int) bool {
@@ -234,6 +241,15 @@ func (w *world) resolver(ctx context.Context, released func()) (*val, func(), er
 		}
 		rc.hasRel = true
 		return rc.v, w.mkRelease(rc), nil
+	}
+	if w.zeroOK && beh <= 2 && c.S.PlanP(400) {
+		// the zero value is a legitimate result: resolved, nil error, with a release function
+		core.YieldN("refcountx.resolver", k)
+		c.S.Count("probe:zero-value-result")
+		rc.zero = true
+		rc.hasRel = true
+		w.stored = append(w.stored, rc)
+		return nil, w.mkRelease(rc), nil
 	}
 	switch beh {
 	case 0, 1, 2:
@@ -554,7 +570,7 @@ func (w *world) checkQuiescent(final bool) {
 	}
 	// no recording reference may believe in a released value
 	for _, h := range rec {
-		if l := h.last(); l != nil && l.resolved && l.v != nil {
+		if l := h.last(); l != nil && l.resolved && (l.v != nil || (l.err == nil && l.rc != nil && l.rc.zero)) {
 			if rc := l.rc; rc != nil && rc.rel > 0 && w.rcOfVal(l.v) == rc {
 				c.Fail("C08.E2.reference-not-told", "at a quiescent point reference %d still believes value %d is current although it has been released", h.id, rc.n)
 				return
@@ -593,6 +609,7 @@ func run(c *core.Ctx) {
 		return ""
 	}
 	w.keep = c.S.PlanP(400)
+	w.zeroOK = c.S.PlanP(200)
 	if c.S.PlanP(600) {
 		w.target = ccontainer.NewCContainer[*val](nil)
 		w.targetErr = ccontainer.NewCContainer[*error](nil)
